@@ -48,7 +48,8 @@ def module_source(doc: str) -> str:
             '    @property\n    def prop(self):\n        %s\n'
             '    attr = 1\n    %s\n'
             'def func(a, b=1, *args, **kw):\n    %s\n'
-            'class Neighbour:\n    %s\n    def n(self, a):\n        %s\n' % (r, r, r, r, r, r, repr(BENIGN), repr(BENIGN + ' L{Neighbour}')))
+            'class Neighbour:\n    %s\n    def n(self, a):\n        %s\n'
+            'class Sub(C):\n    def meth(self, a, b):\n        pass\n' % (r, r, r, r, r, r, repr(BENIGN), repr(BENIGN + ' L{Neighbour}')))
 
 
 def _visible(text_html: str) -> str:
@@ -142,6 +143,7 @@ def _check_case(case: Dict[str, Any]) -> Tuple[List[Tuple[str, str]], Dict[str, 
         except Exception as e:
             import traceback
             return [('build-raises', 'building the module raised %s: %s\n%s' % (type(e).__name__, e, traceback.format_exc()[-900:]))], info
+        bodies: Dict[str, str] = {}
         for name in KINDS:
             a, b = sA.allobjects[name], sB.allobjects[name]
             if not a.docstring:
@@ -165,6 +167,7 @@ def _check_case(case: Dict[str, Any]) -> Tuple[List[Tuple[str, str]], Dict[str, 
                         what, name, fmt, ' +process-types' if pt else '', type(e).__name__, e, trunc(doc, 300), traceback.format_exc()[-700:])))
             if 'body' not in rendered:
                 continue
+            bodies[name] = rendered['body']
             reported = name in sB.parse_errors['docstring']
             # messages printed for this object: "<module name>:<line>: bad docstring: ..."
             printed = [m for sec, m, th in sB.msgs if sec == 'docstring' and m.startswith('m:')]
@@ -181,6 +184,40 @@ def _check_case(case: Dict[str, Any]) -> Tuple[List[Tuple[str, str]], Dict[str, 
                 if not reported or not printed:
                     out.append(('errors-not-reported', '%s (%s): the parser recorded %d problems but parse_errors has it: %s, messages: %s; docstring %r' % (
                         name, fmt, h['errors'], reported, printed[:2], trunc(doc, 300))))
+        # a real run extracts the summary of an object (for the table of its parent) before it renders the body, and the search index
+        # reads the docstring after both: what is shown and reported must not depend on which of them came first
+        try:
+            sC = build([('m', None, False, src)], args=args)
+            for name in KINDS:
+                c = sC.allobjects[name]
+                if name not in bodies:
+                    continue
+                flatten(epydoc2stan.format_summary(c))
+                t_ = epydoc2stan.format_toc(c)
+                if t_ is not None:
+                    flatten(t_)
+                later = flatten(epydoc2stan.format_docstring(c))
+                if _visible(later) != _visible(bodies[name]):
+                    out.append(('depends-on-render-order', '%s (%s) with docstring %r shows %r when the body is rendered first and %r when the summary is extracted first' % (
+                        name, fmt, trunc(doc, 200), trunc(_visible(bodies[name]), 300), trunc(_visible(later), 300))))
+                if (name in sC.parse_errors['docstring']) != (name in sB.parse_errors['docstring']):
+                    out.append(('depends-on-render-order', '%s (%s) with docstring %r is listed among the objects with problems: %s when the body is rendered first, %s when the summary is extracted first' % (
+                        name, fmt, trunc(doc, 200), name in sB.parse_errors['docstring'], name in sC.parse_errors['docstring'])))
+        except _Timeout:
+            raise
+        except Exception as e:
+            out.append(('render-raises', 'rendering summary, contents, body in that order (%s) raised %s: %s for docstring %r' % (fmt, type(e).__name__, e, trunc(doc, 300))))
+        # the method that inherits the docstring shows what the method it is written on shows (also when the parser or the renderer
+        # gave up on it), and the problem stays a problem of the docstring's own lines
+        try:
+            own_ = _visible(flatten(epydoc2stan.format_docstring(sB.allobjects['m.C.meth'])))
+            inh_ = _visible(flatten(epydoc2stan.format_docstring(sB.allobjects['m.Sub.meth'])))
+            if own_ != inh_ and sB.allobjects['m.C.meth'].docstring:
+                out.append(('inherited-rendering-differs', 'm.Sub.meth inherits the docstring %r (%s) of m.C.meth but shows %r where m.C.meth shows %r' % (trunc(doc, 200), fmt, trunc(inh_, 300), trunc(own_, 300))))
+        except _Timeout:
+            raise
+        except Exception as e:
+            out.append(('render-raises', 'rendering the inherited docstring of m.Sub.meth (%s) raised %s: %s for docstring %r' % (fmt, type(e).__name__, e, trunc(doc, 300))))
         last = snapshot()
         if first is not None and last is not None and first != last:
             out.append(('depends-on-history', 'm.func (%s) with docstring %r is rendered or reported differently after the same text was processed for other objects:\n%s\n%s\nvs\n%s\n%s' % (
